@@ -1,8 +1,64 @@
+/-
+  C03 — line-protocol ops for the legacy signature hash.
+
+    c03.raw        script tx idx ht     Model.rawSignatureHash      → digest-hex | one:err | <hex>:err | err:<family>
+    c03.spec.raw   script tx idx ht     Spec.legacySighash (ht ≥ 0) → same rendering
+    c03.wrapper    script tx idx ht     Model.signatureHashBase     → digest-hex | err:<family>
+    c03.fad        script sig           Model.findAndDelete         → hex | err:<family>
+    c03.spec.strip script               Spec.scriptCodeNoSep        → hex
+    c03.spec.ops   script               Spec.ops                    → hex,hex,… | noparse
+    c03.iswit      script               Model.isWitnessScriptPubKey → true | false | err:<family>
+-/
 import Driver.Util
+import Driver.TxFmt
+import BtcVerif.Model.Sighash
+import BtcVerif.Spec.Sighash
 
 namespace Driver.C03
 open BtcVerif Driver
 
-def handle (_op : String) (_args : List String) : Option String := none
+def renderRaw (d : Bytes) (err : Bool) : String :=
+  if err then (if d = Model.Sighash.HASH_ONE then "one:err" else toHex d ++ ":err") else toHex d
+
+def handle (op : String) (args : List String) : Option String :=
+  match op, args with
+  | "c03.raw", [sc, tx, idx, ht] => some <|
+      match parseHex? sc, TxFmt.parseTx? tx, parseNat? idx, parseInt? ht with
+      | some sc, some tx, some idx, some ht =>
+          (match Model.Sighash.rawSignatureHash sc tx idx ht with
+           | .ok (d, e) => renderRaw d e
+           | .error e => "err:" ++ e.family)
+      | _, _, _, _ => badArgs
+  | "c03.spec.raw", [sc, tx, idx, ht] => some <|
+      match parseHex? sc, TxFmt.parseTx? tx, parseNat? idx, parseNat? ht with
+      | some sc, some tx, some idx, some ht =>
+          let (d, e) := Spec.Sighash.legacySighash sc tx idx ht
+          if e then (if d = Spec.Sighash.hashOne then "one:err" else toHex d ++ ":err") else toHex d
+      | _, _, _, _ => badArgs
+  | "c03.wrapper", [sc, tx, idx, ht] => some <|
+      match parseHex? sc, TxFmt.parseTx? tx, parseNat? idx, parseInt? ht with
+      | some sc, some tx, some idx, some ht =>
+          Res.render ((Model.Sighash.signatureHashBase sc tx idx ht).map toHex)
+      | _, _, _, _ => badArgs
+  | "c03.fad", [sc, sig] => some <|
+      match parseHex? sc, parseHex? sig with
+      | some sc, some sig => Res.render ((Model.Sighash.findAndDelete sc sig).map toHex)
+      | _, _ => badArgs
+  | "c03.spec.strip", [sc] => some <|
+      match parseHex? sc with
+      | some sc => toHex (Spec.Sighash.scriptCodeNoSep sc)
+      | none => badArgs
+  | "c03.spec.ops", [sc] => some <|
+      match parseHex? sc with
+      | some sc =>
+          (match Spec.Sighash.ops sc with
+           | some l => joinWith "," (l.map toHex)
+           | none => "noparse")
+      | none => badArgs
+  | "c03.iswit", [sc] => some <|
+      match parseHex? sc with
+      | some sc => Res.render ((Model.Sighash.isWitnessScriptPubKey sc).map toString)
+      | none => badArgs
+  | _, _ => none
 
 end Driver.C03
